@@ -18,6 +18,7 @@ import (
 	"os"
 	"path/filepath"
 	"strings"
+	"sync"
 	"sync/atomic"
 	"time"
 
@@ -142,9 +143,26 @@ type rwc struct {
 
 func (rwc) Close() error { return nil }
 
+// lockedBuf: the notifier goroutine of an accepted subscription writes to the same connection
+type lockedBuf struct {
+	mu sync.Mutex
+	b  bytes.Buffer
+}
+
+func (l *lockedBuf) Write(p []byte) (int, error) {
+	l.mu.Lock()
+	defer l.mu.Unlock()
+	return l.b.Write(p)
+}
+func (l *lockedBuf) String() string {
+	l.mu.Lock()
+	defer l.mu.Unlock()
+	return l.b.String()
+}
+
 func serveInProc(srv *rpc.Server, msg string) string {
-	var out bytes.Buffer
-	codec := rpc.NewJSONCodec(rwc{strings.NewReader(msg), &out})
+	out := &lockedBuf{}
+	codec := rpc.NewJSONCodec(rwc{strings.NewReader(msg), out})
 	srv.ServeSingleRequest(context.Background(), codec, rpc.OptionMethodInvocation|rpc.OptionSubscriptions)
 	return out.String()
 }
@@ -158,11 +176,32 @@ type resp struct {
 	} `json:"error"`
 }
 
+// parseResponses reads the first JSON value of what the server wrote: the response (or batch of responses).
+// Whatever follows on the connection must be subscription notifications (objects with a "method" member: the
+// probe's notifier fires 20 ms after an accepted subscription, which on a loaded machine can be before the
+// response has been collected) - they are not part of the response and are skipped.
 func parseResponses(s string, batch bool) ([]resp, error) {
 	s = strings.TrimSpace(s)
 	if s == "" {
 		return nil, nil
 	}
+	dec := json.NewDecoder(strings.NewReader(s))
+	var first json.RawMessage
+	if err := dec.Decode(&first); err != nil {
+		return nil, err
+	}
+	for dec.More() {
+		var extra struct {
+			Method *string `json:"method"`
+		}
+		if err := dec.Decode(&extra); err != nil {
+			return nil, err
+		}
+		if extra.Method == nil {
+			return nil, fmt.Errorf("a second response on the connection")
+		}
+	}
+	s = string(first)
 	if batch && strings.HasPrefix(s, "[") {
 		var rs []resp
 		err := json.Unmarshal([]byte(s), &rs)
